@@ -739,14 +739,14 @@ pub fn exec_c20_e1(j: &J) -> Result<RunOut, String> {
             out.count("probe.early_exit", 1);
             out.nontrivial = true;
             let ttr = twin.trace();
-            let res = ttr.resolved_steps(twin.x0_score);
+            let res = ttr.score_after();
             let score_after = |p: u64| -> Option<f64> {
                 // score held after proposal p (p = 0: the input)
                 if p == 0 {
                     return twin.x0_score;
                 }
                 let k = lead + p as usize - 1;
-                res.get(k).and_then(|r| r.as_ref()).and_then(|r| r.after_score)
+                res.get(k).and_then(|r| *r).and_then(|r| r)
             };
             if inner_eff == 0 {
                 out.count("probe.early_exit_with_undefined_loop_length", 1);
